@@ -213,6 +213,19 @@ class GList(object):
         return _or([g for g, _ in self.items])
 
 
+class OpaqueObjList(object):
+    """
+    a list of objects of unknown length (a loop-carried accumulator after havoc): supports
+    membership tests (result unknown) and append; `on_append` lets a contract state what may be
+    put into it
+    """
+
+    def __init__(self, name="list", on_append=None):
+        self.name = name
+        self.on_append = on_append
+        self.appended = []
+
+
 class Frame(object):
     def __init__(self, func, locals_, parent=None):
         self.func = func
@@ -1541,13 +1554,15 @@ class Engine(object):
             if attr == "__name__":
                 return obj.name
             raise PyRaise(AttributeError, (attr,))
-        if isinstance(obj, (SStr, FV, DI, SMap, GList, SSeq, SBool, SInt, S.SplitResult)):
+        if isinstance(obj, (SStr, FV, DI, SMap, GList, SSeq, SBool, SInt, S.SplitResult, OpaqueObjList)):
             return HostMethod(obj, attr)
         if isinstance(obj, (str, list, dict, tuple, set, int, float, decimal.Decimal, Fraction)):
             if not hasattr(obj, attr):
                 raise PyRaise(AttributeError, (attr,))
             return HostMethod(obj, attr)
         # host objects (modules, argparse namespaces, ...)
+        if type(obj).__module__.startswith("contracts."):
+            return HostMethod(obj, attr)
         try:
             return getattr(obj, attr)
         except AttributeError:
@@ -1811,9 +1826,12 @@ class Engine(object):
             if isinstance(l, (str, SStr)) and isinstance(r, (str, SStr)):
                 return S.concat(l, r)
             if isinstance(l, FV) or isinstance(r, FV):
-                l2 = self.fv_to_abstract_str(l)
-                r2 = self.fv_to_abstract_str(r)
-                return S.concat(l2, r2)
+                for x in (l, r):
+                    if isinstance(x, FV) and not all(isinstance(v, str) for v in x.values):
+                        bad = fv_guard_of(x, lambda v: not isinstance(v, str))
+                        if st.decide(bad, "concatenation of non-str"):
+                            raise PyRaise(TypeError, ("can only concatenate str",))
+                return S.concat(l, r)
             raise PyRaise(TypeError, ("can only concatenate str",))
         if isinstance(op, ast.Add) and isinstance(l, GList):
             raise Unsupported("guarded list concatenation")
@@ -1957,6 +1975,16 @@ class Engine(object):
                 return item in container
             except TypeError:
                 raise PyRaise(TypeError, ("unhashable",))
+        if isinstance(container, OpaqueObjList):
+            if isinstance(item, SObj):
+                eqm = item.cls.lookup("__eq__")
+                if eqm is None:
+                    raise Unsupported("membership by identity in an opaque list")
+                # the comparison with each (unknown) element must be total: the class's __eq__
+                # contract is consulted by the caller's verification of __eq__ itself
+                st.events.append(("opaque-membership", container.name))
+                return fresh_bool("in_%s" % container.name)
+            raise Unsupported("membership of a non-object in an opaque list")
         if isinstance(container, GList):
             parts = []
             for g, e in container.items:
@@ -2217,6 +2245,12 @@ class Engine(object):
     # -- methods of modelled builtin types ------------------------------------------------------
     def call_method(self, recv, name, args, kwargs, st):
         from . import models
+
+        hook = self.hooks.get("method_call")
+        if hook is not None:
+            handled, value = hook(self, st, recv, name, args, kwargs)
+            if handled:
+                return value
 
         return models.call_method(self, recv, name, args, kwargs, st)
 
